@@ -1473,12 +1473,23 @@ def rw_flat_to_ndenumerate(func, k):
 
 
 def rw_slice_zero(func, k):
-    """a[:n]  <->  a[0:n]"""
-    sites = [n for n in ast.walk(func) if isinstance(n, ast.Slice) and (n.lower is None or (isinstance(n.lower, ast.Constant) and n.lower.value == 0)) and n.upper is not None]
-    if k >= len(sites):
+    """a[:n]  <->  a[0:n]       (all dimensions of one subscript, or all subscripts of one statement, together)"""
+    def slices_of(node):
+        return [n for n in ast.walk(node) if isinstance(n, ast.Slice) and (n.lower is None or (isinstance(n.lower, ast.Constant) and n.lower.value == 0)) and n.upper is not None]
+    groups = []
+    for owner, fld, blk in blocks_of(func):
+        for st in blk:
+            if any(isinstance(getattr(st, f, None), list) and f in _BODY_FIELDS for f in st._fields):
+                continue
+            sl = slices_of(st)
+            if sl:
+                for to_zero in (True, False):
+                    groups.append((sl, to_zero))
+    if k >= len(groups):
         return False
-    n = sites[k]
-    n.lower = None if n.lower is not None else ast.Constant(value=0)
+    sl, to_zero = groups[k]
+    for n in sl:
+        n.lower = ast.Constant(value=0) if to_zero else None
     return True
 
 
@@ -1558,7 +1569,19 @@ def rw_get_none(func, k):
     return True
 
 
-GUIDED = [rw_extract_temp, rw_flatten_comp_filter, rw_first_of_concat, rw_split_tuple_assign, rw_augcomp_to_loop, rw_len_zero, rw_bool_ifexp, rw_singleton_comp, rw_ndenumerate_value, rw_flat_to_ndenumerate, rw_slice_zero, rw_argcomp_to_loop, rw_hoist_return, rw_get_none, rw_else_after_exit_wrap, rw_else_after_exit_unwrap, rw_comp_to_loop, rw_loop_to_comp, rw_not_compare, rw_demorgan, rw_swap_branches, rw_merge_nested_if, rw_split_and_if, rw_guard_to_swapped_else, rw_swapped_else_to_guard, rw_drop_tail_return, rw_add_tail_return, rw_element_to_index_loop, rw_fuse_loops, rw_late_publication, rw_drop_tail_continue, rw_items_loop, rw_filter_loop, rw_loop_to_update, rw_is_false, rw_hoist_common_tail, rw_sink_common_tail, rw_ifexp_to_if, rw_if_to_ifexp, rw_bool_to_if, rw_kwargs_default, rw_trailing_return, rw_enumerate, rw_return_temp]
+def rw_flip_compare(func, k):
+    """a < b  <->  b > a     (and <=, >=, ==, !=)"""
+    flip = {ast.Lt: ast.Gt, ast.Gt: ast.Lt, ast.LtE: ast.GtE, ast.GtE: ast.LtE, ast.Eq: ast.Eq, ast.NotEq: ast.NotEq}
+    sites = [n for n in ast.walk(func) if isinstance(n, ast.Compare) and len(n.ops) == 1 and type(n.ops[0]) in flip]
+    if k >= len(sites):
+        return False
+    n = sites[k]
+    n.left, n.comparators[0] = n.comparators[0], n.left
+    n.ops = [flip[type(n.ops[0])]()]
+    return True
+
+
+GUIDED = [rw_extract_temp, rw_flatten_comp_filter, rw_first_of_concat, rw_split_tuple_assign, rw_augcomp_to_loop, rw_len_zero, rw_bool_ifexp, rw_singleton_comp, rw_ndenumerate_value, rw_flat_to_ndenumerate, rw_slice_zero, rw_flip_compare, rw_argcomp_to_loop, rw_hoist_return, rw_get_none, rw_else_after_exit_wrap, rw_else_after_exit_unwrap, rw_comp_to_loop, rw_loop_to_comp, rw_not_compare, rw_demorgan, rw_swap_branches, rw_merge_nested_if, rw_split_and_if, rw_guard_to_swapped_else, rw_swapped_else_to_guard, rw_drop_tail_return, rw_add_tail_return, rw_element_to_index_loop, rw_fuse_loops, rw_late_publication, rw_drop_tail_continue, rw_items_loop, rw_filter_loop, rw_loop_to_update, rw_is_false, rw_hoist_common_tail, rw_sink_common_tail, rw_ifexp_to_if, rw_if_to_ifexp, rw_bool_to_if, rw_kwargs_default, rw_trailing_return, rw_enumerate, rw_return_temp]
 
 
 def _clone(node):
@@ -1803,4 +1826,51 @@ def coalesce_copies(func, ref_locals, local_names):
                 break
             if changed:
                 break
+    return done
+
+
+def split_multi_def_temps(func, ref_locals, local_names):
+    """a new local that is bound in several places, each binding `t = E` being the first statement using t in its block and all uses
+    of t lying in the rest of exactly one such block, is split into one name per binding (the bindings are independent)"""
+    done = []
+    new = {x for x in local_names(func) - set(ref_locals)}
+    par = parents_of(func)
+    for t in sorted(new):
+        occ = [n for n in ast.walk(func) if isinstance(n, ast.Name) and n.id == t]
+        stores = [n for n in occ if isinstance(n.ctx, ast.Store)]
+        if len(stores) < 2:
+            continue
+        regions = []
+        ok = True
+        for st in stores:
+            a = par.get(st)
+            # plain assignment or tuple target of a plain assignment
+            while a is not None and not isinstance(a, ast.stmt):
+                a = par.get(a)
+            if not isinstance(a, ast.Assign):
+                ok = False
+                break
+            blk = None
+            for _, _, b in blocks_of(func):
+                if a in b:
+                    blk = b
+            if blk is None:
+                ok = False
+                break
+            reg = {id(n) for s2 in blk[blk.index(a):] for n in ast.walk(s2)}
+            regions.append(reg)
+        if not ok:
+            continue
+        owner = {}
+        for n in occ:
+            hits = [i for i, reg in enumerate(regions) if id(n) in reg]
+            if len(hits) != 1:
+                ok = False
+                break
+            owner[id(n)] = hits[0]
+        if not ok:
+            continue
+        for n in occ:
+            n.id = '%s__%d' % (t, owner[id(n)] + 1)
+        done.append(t)
     return done
